@@ -91,6 +91,14 @@ def process(ctx, r, prop, drv, rc, lines, args, mode):
             r.nontrivial(args[2] + args[3] + cl)
     if cases:
         r.sample({'config': args[1:], 'case': cases[0], 'chain': ins[0] if ins else None})
+    for il in [x for x in lines if x.startswith('INTR ')]:
+        # C02 scenario "wake-up after an interrupted wait" (restart reason abort): how many targets were
+        # interrupted inside their first wait and resumed from the second one
+        f = dict(x.split('=', 1) for x in il.split(' ')[2:] if '=' in x)
+        r.count('interrupted_in_wait', int(f.get('interrupted_in_wait', '0')))
+        r.count('resumed_after_interrupted_wait', int(f.get('resumed_after_second_wait', '0')))
+        if int(f.get('wait_returned_without_exception', '0')):
+            r.count('interrupted_wait_returned_without_exception', int(f['wait_returned_without_exception']))
     for w in [x for x in lines if x.startswith('WITNESS ')]:
         r.notes.append('%s %s workers: %s' % (args[2], args[3], w))
         r.count(w.replace(' ', '_'))
@@ -218,8 +226,83 @@ def run_yield_to(ctx, r):
             r.hits.append(Hit('tie', 'C01:yield_to_harness', 'c01_yieldto ended with status %d: %s' % (rc, out[-300:]), rep))
 
 
+def stack_configs(ctx):
+    """(seed, policy, workers, waves, guard pages) of the stack-class sequences: every sequence is its own process"""
+    rnd = random.Random(ctx.seed * 31 + 5)
+    out = []
+    if ctx.tier == 'quick':
+        pols = ['local-priority-fifo', rnd.choice(POLICIES[1:]), rnd.choice(POLICIES[1:])]
+        k = 0
+        for p in pols:
+            for t in (2, 4):
+                for guard in (1, 0):
+                    out.append((ctx.seed * 1000 + k, p, t, 13, guard))
+                    k += 1
+    else:
+        k = 0
+        for p in POLICIES:
+            for t in (1, 2, 3, 4, 8):
+                for guard in (1, 0):
+                    for rep in range(2):
+                        out.append((ctx.seed * 1000 + k, p, t, 13, guard))
+                        k += 1
+    return out
+
+
+def run_one_stack_sequence(ctx, r, drv, hs, args):
+    """one sequence of waves (harness/c01_stacks.cpp) in its own child process: a stack overrun ends the child"""
+    argv = [hs] + [str(a) for a in args] + ['1']
+    rc, out = sh(argv, timeout=300, env={'PIKA_LOG_LEVEL': '6'})
+    lines = out.split('\n')
+    waves = [x for x in lines if x.startswith('WAVE ')]
+    mons = [x for x in lines if x.startswith('MON ')]
+    summary = [x for x in lines if x.startswith('SUMMARY ')]
+    for wl in waves:
+        f = dict(x.split('=', 1) for x in wl.split(' ')[2:] if '=' in x)
+        r.count('stack_wave=%s_after_%s' % (f.get('class', '?'), f.get('prev', '?')))
+        r.count('stack_submit=' + f.get('submit', '?'))
+    if rc != 0 and not mons and not any(x.startswith('INCONCLUSIVE ') for x in lines):
+        # the child died (SIGSEGV on a guard page / abort / crash after an overrun) or hung: the last wave it
+        # announced did not complete
+        last = waves[-1] if waves else '(before the first wave)'
+        done = len([x for x in lines if x.startswith('CASE ')])
+        tail = ' | '.join([x for x in lines if x and not x.startswith(('IN ', 'OUT ', 'WAVE ', 'CASE ', 'TIME '))][-4:])
+        r.hits.append(Hit('monitor', 'C01:task_did_not_complete:crash',
+                          'tasks of a wave using 50..80 %% of the configured stack of their class did not run to completion: the '
+                          'process %s (status %d) in wave [%s] after %d completed waves [%s]; %s' % (
+                              'hung' if rc == 124 else 'died', rc, last, done,
+                              '; '.join(w.split(' ', 2)[2] for w in waves[:-1])[-600:], tail[-500:]),
+                          {'harness': 'c01_stacks', 'args': [str(a) for a in args] + ['1'], 'wave': last, 'rc': rc}))
+        # what the child printed before it died still goes through the monitors / acceptor below
+        rc = 0
+        if not summary:
+            lines.append('SUMMARY (child died)')
+    process(ctx, r, 'C01', drv, rc, lines, argv, 'stacks')
+
+
+def run_stacks(ctx, r, drv):
+    """tasks of all four stack-size classes that really use their stacks, in waves with recycling in between"""
+    hs = ctx.build_harness('c01_stacks', 'c01_stacks.cpp')
+    for args in stack_configs(ctx):
+        run_one_stack_sequence(ctx, r, drv, hs, args)
+
+
 def run(ctx):
+    if ctx.replay:
+        try:
+            data = json.load(open(ctx.replay))
+            rep = data.get('replay', {})
+        except Exception:
+            rep = {}
+        if rep.get('harness') == 'c01_stacks' and len(rep.get('args', [])) >= 5:
+            r = Result()
+            ctx.build_pika()
+            drv = ctx.build_model('C01', 'ExtractC01.v', 'drv_c01.ml')
+            hs = ctx.build_harness('c01_stacks', 'c01_stacks.cpp')
+            run_one_stack_sequence(ctx, r, drv, hs, rep['args'][:5])
+            return r
     r = run_modes(ctx, 'C01', ['c01', 'guard'], 'ExtractC01.v', 'drv_c01.ml', 'c01_trace.cpp', 'c01_trace')
     if not ctx.replay:
+        run_stacks(ctx, r, ctx.build_model('C01', 'ExtractC01.v', 'drv_c01.ml'))
         run_yield_to(ctx, r)
     return r
